@@ -104,7 +104,6 @@ func (ti *typeInfo) field(param string) (*fieldInfo, error) {
 func (ti *typeInfo) normalize() error {
 	var fields []*fieldInfo
 	params := map[string]bool{}
-	groupCounted := false
 	for _, f := range ti.Fields {
 		isValid := true
 		if f.Opts.OmitEmpty {
@@ -126,16 +125,6 @@ func (ti *typeInfo) normalize() error {
 			ti.HashPrefix = f
 			continue
 		}
-		if !f.Opts.Group && !f.Opts.OmitEmpty && !f.Opts.Inline {
-			ti.NumReqValues++
-		}
-		if !f.Opts.Group {
-			groupCounted = false
-		} else if !f.Opts.OmitEmpty && !groupCounted {
-			// A group with a required member takes exactly one fragment
-			ti.NumReqValues++
-			groupCounted = true
-		}
 		if f.Opts.Param == "" {
 			fields = append(fields, f)
 			continue
@@ -151,6 +140,21 @@ func (ti *typeInfo) normalize() error {
 		params[f.Opts.Param] = true
 	}
 	ti.Fields = fields
+	// Count the required fragments over the fields that are kept: a field shadowed
+	// by a shallower one with the same param name produces no fragment
+	groupCounted := false
+	for _, f := range fields {
+		if !f.Opts.Group && !f.Opts.OmitEmpty && !f.Opts.Inline {
+			ti.NumReqValues++
+		}
+		if !f.Opts.Group {
+			groupCounted = false
+		} else if !f.Opts.OmitEmpty && !groupCounted {
+			// A group with a required member takes exactly one fragment
+			ti.NumReqValues++
+			groupCounted = true
+		}
+	}
 	return nil
 }
 
